@@ -289,3 +289,11 @@ Proof.
   unfold complete_stream. rewrite map_map. cbn [tile_of fst]. rewrite map_id.
   apply writer_order_perm, uniform_planes_map.
 Qed.
+
+(** Tie to the source: adjust_blocksize and num_overviews (its while loop as a fixpoint on explicit
+    fuel) as regenerated by tools/py2v from the current odc/geo/cog/_shared.py (coq/Gen/CogGen.v,
+    rewritten on every run) are the model (Model/CogLayout.v) the theorems above are stated on. *)
+From OG Require Proofs.CogGenEquiv.
+Theorem C05_source_is_model : OG.Proofs.CogGenEquiv.cog_source_is_model.
+Proof. exact OG.Proofs.CogGenEquiv.cog_source_is_model_holds. Qed.
+Print Assumptions C05_source_is_model.
